@@ -266,7 +266,11 @@ fn print_rules(rules: &[Rule], sp: &Spelling) -> Vec<String> {
     p.toks
 }
 
-const GAPS: &[&str] = &["", " ", "\n", "\t", " /* c */ ", "// c\n", " /* a /* nested */ b */", "\r\n"];
+const GAPS: &[&str] = &[
+    "", " ", "\n", "\t", " /* c */ ", "// c\n", " /* a /* nested */ b */", "\r\n",
+    // comment text is arbitrary: a lone CR, a four-byte character at the very end, quotes and braces
+    "// a\rb \u{1f600}\n", "/*\u{1f600}*/", "// \"{ }' = \r\n", "/* \r * / \u{20ac}*/",
+];
 
 /// Join tokens; `gap_dev` = (gap index, filler) deviations, all other gaps are one space.
 fn join(toks: &[String], gap_dev: &[(usize, &str)], docs: Option<&str>) -> String {
@@ -492,7 +496,7 @@ fn check_grammar(rules: &[Rule], stats: &mut Stats, two_gap_devs: bool) {
         check(rules, &join(&toks, &devs, None), &format!("all-gaps:{f:?}"), stats);
     }
     // doc comments
-    for d in ["//! grammar doc\n", "/// rule doc\n", "//! g\n//! h\n/// r\n", "//!\n"] {
+    for d in ["//! grammar doc\n", "/// rule doc\n", "//! g\n//! h\n/// r\n", "//!\n", "/// a\rb\n", "//! x\ry \u{1f600}\r\n/// \"q\" = { }\u{1f600}\n", "///\r\n"] {
         check(rules, &join(&toks, &[], Some(d)), "docs", stats);
     }
     // redundant parentheses around each node
